@@ -252,7 +252,8 @@ def ow2(ctx, R):
         # whole-sequence equality of two stored ordered sequences (tuple == tuple) is a length check and a pairwise comparison at once
         whole = [n for n in ast.walk(eq.node) if isinstance(n, ast.Compare) and len(n.ops) == 1 and isinstance(n.ops[0], (ast.Eq, ast.NotEq))
                  and isinstance(n.left, ast.Attribute) and isinstance(n.comparators[0], ast.Attribute) and n.left.attr == n.comparators[0].attr
-                 and dotted(n.left.value) == "self" and isinstance(n.comparators[0].value, ast.Name) and n.comparators[0].value.id in eq.params and not zips]
+                 and dotted(n.left.value) == "self" and isinstance(n.comparators[0].value, ast.Name) and n.comparators[0].value.id in eq.params and not zips
+                 and "hash" not in n.left.attr.lower()]      # a stored hash value is not the sequence
         pairwise = False
         zip_names = set()
         for n in ast.walk(eq.node):
@@ -291,6 +292,12 @@ def ow2(ctx, R):
         elif (zips and not pairwise) or (zips and not has_len):
             R.violation(key_, eq.where(), "cache key equality does not compare the object paths pairwise in list order (length check=%s, zip=%s, path==path=%s): "
                         "segments with different object lists would share one path->position index" % (bool(has_len), bool(zips), pairwise))
+        elif any(isinstance(n, ast.Compare) and len(n.ops) == 1 and isinstance(n.ops[0], (ast.Eq, ast.NotEq)) and all(
+                (isinstance(x, ast.Attribute) and "hash" in x.attr.lower()) or (isinstance(x, ast.Call) and call_name(x) == "hash") for x in (n.left, n.comparators[0]))
+                for n in ast.walk(eq.node)) and not zips and not mapped:
+            R.violation(key_, eq.where(), "cache key equality is decided by comparing hash values (and at most the lengths), not the object paths themselves: "
+                        "two different object lists with the same hash - the stored hash combines the path hashes symmetrically, so any reordering of the same "
+                        "paths - would share one path->position index")
         else:
             R.undecided(key_, eq.where(), "how the two object lists are compared was not recognised")
     # get_index builds the index by enumerate over the list it was given
